@@ -13,6 +13,8 @@ SHARDS = {"quick": 8, "thorough": 16}
 ANCHORS = ["discovery.py:discover", "discovery.py:_get_uri_prefix_to_luids"]
 DECIDING = ["discover"]
 RULE = (
+    "bounded world: every string over 'x1/_#' up to length 4 as a single URI under four delimiter / cutoff configurations "
+    "(quick and thorough) and every unordered pair of them (thorough) (coverage.small_world_exhaustive). Random part: "
     "case = a multiset of 0-10 URIs over a small alphabet (nested candidates such as x/ and x/a_, several delimiters in "
     "one URI, non-alphanumeric and empty tails, Unicode digits and letters, repetitions, rarely a GitHub issue URL), a "
     "delimiter list (default, single / multi-character, different priorities), cutoff None / 0..4, a metaprefix, and "
@@ -32,10 +34,64 @@ TAILS = ["1", "2", "3", "a1", "é", "a_1", "a-1", "", "x/1", "1#2", "٣", "b", "
 DELIMS = [None, None, ["/"], ["#", "/", "_"], ["_", "/"], ["a_", "/"], ["/", "#"], [":", "/"], ["_"], ["b#", "#", "_"]]
 
 
+# ---- bounded-exhaustive small world: every set of <= 2 URIs over {x, 1, /, _, #} up to length 4 -----------------------
+import itertools
+
+SMALL_ALPH = "x1/_#"
+SMALL_URIS = ["".join(t) for k in range(0, 5) for t in itertools.product(SMALL_ALPH, repeat=k)]
+SMALL_CHUNK = 700
+SMALL_CONFIGS = [({}, "default"), ({"delimiters": ["_", "/"]}, "_/"), ({"delimiters": ["x/", "#"]}, "multi"), ({"cutoff": 2}, "cutoff2")]
+
+
+def _n_small(tier):
+    n = len(SMALL_URIS)
+    return n if tier == "quick" else n + n * (n - 1) // 2
+
+
+def small_world_case(ctx, g):
+    import curies
+
+    S = probe.S
+    n = len(SMALL_URIS)
+    lo, hi = g * SMALL_CHUNK, min((g + 1) * SMALL_CHUNK, _n_small(ctx.tier))
+    for idx in range(lo, hi):
+        if idx < n:
+            uris = [SMALL_URIS[idx]]
+        else:
+            # idx - n enumerates unordered pairs
+            k = idx - n
+            i = int(((8 * k + 1) ** 0.5 + 1) / 2)
+            while i * (i - 1) // 2 > k:
+                i -= 1
+            while (i + 1) * i // 2 <= k:
+                i += 1
+            j = k - i * (i - 1) // 2
+            uris = [SMALL_URIS[i], SMALL_URIS[j]]
+        kw, _name = SMALL_CONFIGS[idx % len(SMALL_CONFIGS)] if idx >= n else ({}, "default")
+        call(curies.discover, uris, **kw)
+        if idx < n:
+            for kw2, _ in SMALL_CONFIGS[1:]:
+                call(curies.discover, uris, **kw2)
+        S.counters["wl:small-world-uri-sets"] += 1
+    probe.note_key(f"small-world:chunk{g % 50}", True)
+
+
+def EXHAUSTIVE(tier, counters):
+    n = counters.get("wl:small-world-uri-sets", 0)
+    total = _n_small(tier)
+    return {
+        "small_world_exhaustive": n == total,
+        "explanation": f"{n} of {total} URI sets enumerated: every string over '{SMALL_ALPH}' up to length 4 alone (under 4 delimiter / cutoff configurations)"
+                       + (" and every unordered pair of them (configurations in rotation)" if tier == "thorough" else "") + "; random multisets beyond that are sampling",
+    }
+
+
 def run_case(ctx, g, rng):
     import curies
 
     api, S = ctx.api, probe.S
+    if g * SMALL_CHUNK < _n_small(ctx.tier):
+        small_world_case(ctx, g)
     uris = [rng.choice(HOSTS) + rng.choice(TAILS) for _ in range(rng.randint(0, 10))]
     if rng.random() < 0.04 or g == 0:  # case 0 always carries the listed known finding's trigger
         uris.append("https://github.com/o/r/issues/" + rng.choice(["1", "22"]))
